@@ -152,7 +152,8 @@ class Machine:
             succs = fn.succ[bid]
             c = fn.cond(bid)
             if c:
-                v = self.truth(self.eval(fn, c[0], env, depth))
+                raw = blk['term'].get('cond') if blk.get('term') else None
+                v = self.truth(self.eval(fn, raw if isinstance(raw, dict) else c[0], env, depth))
                 if v is None:
                     # a branch on symbolic data: if one arm is an assertion
                     # failure, the other one is taken; otherwise both matter
@@ -218,7 +219,9 @@ class Machine:
             return None
         if k == 'return':
             return ('return', self.eval(fn, s['e'], env, depth) if isinstance(s.get('e'), dict) else None)
-        self.eval(fn, s, env, depth)
+        v = self.eval(fn, s, env, depth)
+        if 'i' in s:
+            env[('val', s['i'])] = v      # the terminator may refer to it
         return None
 
     # -- lvalues -------------------------------------------------------------
@@ -308,6 +311,8 @@ class Machine:
 
     # -- expressions -----------------------------------------------------------
     def eval(self, fn, n, env, depth):
+        if isinstance(n, dict) and n.get('k') == 'ext' and ('val', n.get('i')) in env:
+            return env[('val', n['i'])]   # already evaluated as a statement: no second evaluation
         n = fn.resolve(n) if isinstance(n, dict) else n
         if not isinstance(n, dict):
             return SYM
